@@ -817,8 +817,19 @@ def native_stream(ck, nat, g, mode, n, r):
                 asp.append((k, "top" if real["flags"][k] == "top" else ("sym" if isinstance(real["flags"][k], str) else "value")))
         if real["rip"] != CODE_ADDR + len(e.code):
             asp.append(("rip", "value"))
-        if real["mem"] != nmem or real["bad_mem"]:
-            asp.append(("mem", "sym" if real["bad_mem"] else "value"))
+        rmem, bad = real["mem"], real["bad_mem"]
+        cmem = nmem
+        if getattr(e, "undef_regs_dyn", False) and getattr(e, "info", None) and e.info["rm"][0] == "mem":
+            # the destination is architecturally undefined here (SHLD/SHRD with a count above the operand
+            # size: Intel and AMD parts differ), and it is a memory operand: its bytes are not compared
+            lo = e.info["rm"][1] - WIN_ADDR
+            hi = lo + e.info["rm"][2]
+            if 0 <= lo and hi <= WIN and rmem is not None and len(rmem) == len(nmem):
+                rmem = rmem[:lo] + bytes(hi - lo) + rmem[hi:]
+                cmem = nmem[:lo] + bytes(hi - lo) + nmem[hi:]
+                bad = [b for b in bad if not (lo <= b < hi)]
+        if rmem != cmem or bad:
+            asp.append(("mem", "sym" if bad else "value"))
         if len(ck.cov["samples"]) < 8 and e.name in ("ADC", "SHL", "CMOVL", "MOVSX", "SBB"):
             ck.sample({mode: case, "decoded": str(i), "agree": not asp})
         seen = set()
